@@ -871,6 +871,8 @@ STYLE_COUNT = {}
 RAW_COUNT = [0]
 DEFERRED_RAW = []
 INC_COUNT = {"set_incidence_metadata_ok": 0, "set_incidence_metadata_rej": 0, "get_incidence_metadata": 0}
+Y_COUNT = {"raw_echo_calls": 0, "populate_of_expose": 0, "get_mapping": 0, "mapping_transform": 0, "constructor_probes_rejected": 0,
+           "constructor_probes_accepted": 0}
 SUB_COUNT = {"extraction_in_model": 0, "get_edges_rejected": 0, "get_edges_options": 0}
 ALIAS_COUNT = {"caller_changes_to_handed_in_objects": 0, "caller_changes_to_returned_objects": 0, "metadata_dictionaries_probed": 0}
 
@@ -1612,6 +1614,105 @@ def run_history(ctx, drv, hist, rng, every=True):
                 inc_tabs[c[2]] = dict(inc_tabs.get(c[1], {}))
             elif c[0] == "clear":
                 inc_tabs[c[1]] = {}
+        # second extension round (own PRNG per step: the older streams are not shifted; stable under shrinking): raw setters handed
+        # what the matching getter returns (`RawOp.echo`), `populate_from_dict(expose_data_structures())`, `get_mapping()`
+        import random as _rnd
+        rngy = _rnd.Random(f"c02y|{U}|{hist['kind']}|{i}|{len(cmds) if final else 0}")
+        for sl in sorted(objs):
+            if sl not in specs or problems:
+                continue
+            h = objs[sl]
+            V = ImplView(lab)
+            if final or rngy.random() < 0.12:
+                what = rngy.choice(["el", "as", "at", "pop", "pop"])
+                fresh_copy = rngy.random() < 0.4          # an equal copy of the tables instead of the tables themselves
+                import copy as _cp
+
+                def _echo():
+                    if what == "el":
+                        d = h.get_edge_list()
+                        h.set_edge_list(dict(d) if fresh_copy else d)
+                    elif what in ("as", "at"):
+                        side = "source" if what == "as" else "target"
+                        d = h.get_adj_dict(side)
+                        h.set_adj_dict({k: list(v) for k, v in d.items()} if fresh_copy else d, side)
+                    else:
+                        d = h.expose_data_structures()
+                        h.populate_from_dict(_cp.deepcopy(d) if fresh_copy else d)
+                ok, _ = call(_echo)
+                model_lines.append(f"rawecho {sl} {what}")
+                model_expect.append(("out", i, "ok" if ok else "rej"))
+                Y_COUNT["raw_echo_calls"] += 1
+                if what == "pop":
+                    Y_COUNT["populate_of_expose"] += 1
+                    # `expose_data_structures()` does not hand out the incidence table: the populate empties it (model: `forget`)
+                    inc_tabs[sl] = {}
+                    ok, allm = call(h.get_all_incidences_metadata)
+                    try:
+                        got_all = j(";", "-", sorted(f"{V.key(kk)}@{V.n(nn)}={r_meta_py(m)}" for (kk, nn), m in allm.items())) if ok else "rej"
+                    except Exception:
+                        got_all = "?" + repr(allm)[:80]
+                    model_lines.append(f"allinc {sl}")
+                    model_expect.append(("out", i, got_all))
+                else:
+                    ok, _ = call(h.set_adj_dict, {}, rngy.choice(["both", "", "sources", None]))
+                    if ok:
+                        problems.append(("disagree", f"after operation {i} `{line}` (object {sl}): set_adj_dict with a second argument "
+                                                     f"other than 'source' / 'target' was accepted (the model: ValueError, nothing changes)", i))
+            if lab.kind != "tup" and (final or rngy.random() < 0.12):
+                # get_mapping(): classes_ IN ORDER, transform of a label, inverse_transform of the code (tuple labels: numpy cannot
+                # hold them as scalars, LabelEncoder.fit raises on the unchanged code - not asked)
+                ok, enc = call(h.get_mapping)
+                try:
+                    got = j(",", "-", [V.n(x) for x in enc.classes_.tolist()]) if ok else "rej"
+                except Exception:
+                    got = "?" + repr(enc)[:60]
+                model_lines.append(f"mapping {sl}")
+                model_expect.append(("out", i, got))
+                Y_COUNT["get_mapping"] += 1
+                if ok:
+                    present_labels = set(enc.classes_.tolist())
+                    for r in sorted({rngy.randint(0, U), rngy.randint(0, U)}):
+                        if lab.kind not in INT_KINDS and lab.lab(r) not in present_labels:
+                            # numpy casts the asked string to the fixed width of classes_ ('ab' -> 'a' when every node is one
+                            # character long): sklearn answers the code of the truncated label - not asked (see notes)
+                            continue
+                        ok2, code = call(lambda: int(enc.transform([lab.lab(r)])[0]))
+                        got = str(code) if ok2 else "rej"
+                        if ok2:
+                            ok3, back = call(lambda: enc.inverse_transform([code]).tolist()[0])
+                            if not ok3 or back != lab.lab(r):
+                                got += " !inv"
+                        model_lines.append(f"indexof {sl} {r}")
+                        model_expect.append(("out", i, got))
+                        Y_COUNT["mapping_transform"] += 1
+        if final and not problems and 8 not in objs:
+            # constructor probes into a scratch slot: argument classes of `ctorRejArgs` (refused: no object; accepted: all tables compared)
+            e1, e2 = gen_edge(rngy, U), gen_edge(rngy, U)
+            wflag = rngy.random() < 0.5
+            probes = [
+                ["new", 8, wflag, None, None, [e1, e2], [4], None],                       # too few weights (own test only when weighted)
+                ["new", 8, wflag, None, None, [e1], [4, 8], None],                        # too many weights
+                ["new", 8, wflag, None, None, [e1, e2], None, [gen_meta(rngy, False)]],   # edge_metadata too short
+                ["new", 8, wflag, None, None, [], [4], None],                             # weights for an empty edge_list
+                ["new", 8, wflag, gen_meta(rngy, False, dict_only=True), None, None, [4, 8], [[]]],   # no edge_list: the rest is ignored
+                ["new", 8, wflag, None, [[rngy.randint(0, U), gen_meta(rngy, False)]], [e1, e2], None, []],   # empty edge_metadata = none
+                ["new", 8, False, None, None, [e1, e1], [2, 4], None],                    # promotion + repeated hyperedge
+            ]
+            for pc in rngy.sample(probes, 2):
+                a_i, pc = apply_impl(objs, lab, pc, None, None)
+                a_s = apply_spec(specs, pc)
+                if a_i != a_s:
+                    problems.append(("violation", f"constructor call `{encode(pc)}`: implementation {'raised' if a_i == 'rej' else 'accepted'}, "
+                                                  f"the abstract object says {a_s}", i))
+                model_lines.append(encode_model(pc))
+                model_expect.append(("out", i, a_i))
+                Y_COUNT["constructor_probes_" + ("accepted" if a_i == "ok" else "rejected")] += 1
+                if a_i == "ok" and a_s == "ok":
+                    model_lines.append(f"raw 8")
+                    model_expect.append(("out", i, raw_impl(objs[8], lab)))
+                objs.pop(8, None)
+                specs.pop(8, None)
         for sl in sorted(objs):
             if sl not in specs or problems:
                 continue
@@ -1885,6 +1986,8 @@ def _check_history(ctx, drv, hist, seed):
     for k, v in ALIAS_COUNT.items():
         ctx.extra[k] = v
     ctx.extra["raw_table_comparisons"] = RAW_COUNT[0]
+    for k, v in Y_COUNT.items():
+        ctx.extra[k] = v
     for k, v in SUB_COUNT.items():
         ctx.extra[k] = v
     for k, v in INC_COUNT.items():
